@@ -29,7 +29,7 @@ SHRINK_KEY = ["ops", "prefix"]
 RULE = (
     "case = topology spec (LAN1/LAN2 switched, R1/R2 routed, DMZ firewall; attacker hA and victim hB placements; 0-2 "
     "silent third hosts) x one complete block on the hA-hB cut of the tree (deny rule(s) of 10 shapes at the top of a "
-    "router ACL or of one of the two firewall lists on the path; disabled host NIC / switch port / router port; absent "
+    "router ACL or of one of the two firewall lists on the path, wildcard rules with normalised and un-normalised bases and 5 wildcard widths; disabled host NIC / switch port / router port; absent "
     "link; powered-off victim, switch or router) installed from the scenario file, by request before anything else, or "
     "by request after an unblocked prefix x attack schedule on hA (ping, nmap ping/port/recon, install/configure/"
     "execute of data-manipulation-bot, ransomware-script, dos-bot, c2-beacon, c2-server commands, database client "
@@ -614,6 +614,12 @@ def run_case(case: Dict) -> CaseResult:
     res.label(f"fam:{spec['fam']}", f"block:{bs}", f"when:{spec['when']}/{spec.get('via')}")
     if spec["block"]["mech"] == "acl":
         res.label(f"shape:{spec['block']['shape']}")
+        wc_ = spec["block"].get("wc")
+        if wc_:
+            t_ = T.block_target(spec)["rules"][0]
+            unnorm = any(t_[f"{sd}_wildcard"] != "NONE" and
+                         T.wild_base(t_[f"{sd}_ip"], t_[f"{sd}_wildcard"], "net") != t_[f"{sd}_ip"] for sd in ("src", "dst"))
+            res.label(f"wildcard:{wc_['mask']}", "wildcard-base:un-normalised" if unnorm else "wildcard-base:normalised")
     for r_ in (att, idle):
         STATS["acl_verdicts"] += r_.mon.n_verdicts
         STATS["acl_denials"] += r_.mon.n_denied
@@ -722,6 +728,13 @@ def case_strategy(draw, tier: str, fam: str, mech: str, allow_instant_off: bool 
     block: Dict[str, Any] = {"mech": mech}
     if mech == "acl":
         block.update(shape=draw(st.sampled_from(shapes)), which=_pick(draw, len(P["acls"])), pos=_pick(draw, 7))
+        if block["shape"].startswith("wild"):
+            # the wildcard applies to base and candidate alike: normalised bases, the host's own address, another address
+            # of the range; /24-wide as well as narrower and wider wildcards that still cover the blocked address
+            block["wc"] = {"mask": draw(st.sampled_from(("0.0.0.255",) + T.WILD_MASKS)),
+                           "src_base": draw(st.sampled_from(T.WILD_BASES + ("other",))),
+                           "dst_base": draw(st.sampled_from(T.WILD_BASES + ("other",))),
+                           "off": _pick(draw, 256)}
     elif mech == "nic":
         block.update(side=draw(st.sampled_from(["A", "B"])))
     elif mech == "swport":
